@@ -3,9 +3,12 @@ use crate::framework::PropertyDef;
 pub mod c01;
 pub mod c02;
 pub mod c03;
+pub mod c05;
+pub mod c06;
+pub mod c07;
 pub mod c18;
 pub mod c22;
 
 pub fn all() -> Vec<PropertyDef> {
-    vec![c01::def(), c02::def(), c03::def(), c18::def(), c22::def()]
+    vec![c01::def(), c02::def(), c03::def(), c05::def(), c06::def(), c07::def(), c18::def(), c22::def()]
 }
